@@ -68,6 +68,16 @@ def replay(rec, ctx):
     if rec["unspecified"]:
         return [{"observation": f"{m}:negative-donor-density"}]
     samples = [float(x) for x in out.samples]
+    # the model *adds* to the spectrum it is handed: on a spectrum that already holds something (other models ran before it)
+    # the increase is the same
+    base_level = max(max(samples), 1e-30) * 0.5
+    sp2 = Spectrum(LO, HI, BINS)
+    sp2.samples[:] = base_level
+    out2 = model.emission(Point3D(0.1, 0.2, 0.3), Vector3D(1, 0, 0), sp2)
+    inc = [float(x) - base_level for x in out2.samples]
+    if any(abs(a - b) > 1e-9 * max(abs(base_level), abs(b)) for a, b in zip(inc, samples)):
+        k_ = max(range(BINS), key=lambda i: abs(inc[i] - samples[i]))
+        bad("does-not-add-to-the-spectrum-it-is-given", f"bin {k_}: increase {inc[k_]!r} on a pre-filled spectrum, {samples[k_]!r} on an empty one")
     dl = (HI - LO) / BINS
     integral = sum(samples) * dl
     nu = EC.nu(rec)
